@@ -282,6 +282,17 @@ Definition with_initiation (P : peer) (now oidx seq : N) : peer :=
      last_sent := now; kprev := kprev P; kcur := kcur P; knext := knext P;
      endpoint := endpoint P; rx := rx P; tx := tx P + MessageInitiationSize; lh := lh P; staged := staged P |}.
 
+(* SendHandshakeInitiation(false) for peer p whose record (possibly with a
+   freshly staged packet) is P1: the RekeyTimeout spacing test (made under the
+   read lock and again under the write lock, so that of several concurrent
+   callers exactly one proceeds), then CreateMessageInitiation. *)
+Definition send_initiation (st : state) (now oidx p : N) (P1 : peer) : state * list out :=
+  if now - last_sent P1 <? RekeyTimeout then (set_peer st p P1, []) else
+  let seq := nseq st + 1 in
+  let t1 := tadd_hs (tdelete (table st) (hs_local P1)) oidx p in
+  ({| peers := peers (set_peer st p (with_initiation P1 now oidx seq)); table := t1; nseq := seq; loaded := loaded st |},
+   [OInit (endpoint P1) p oidx (stamp_val now)]).
+
 (* RoutineReadFromTUN -> StagePackets; SendStagedPackets *)
 Definition tun_packet (st : state) (now oidx p inner : N) : state * list out :=
   let P := peers st p in
@@ -291,13 +302,7 @@ Definition tun_packet (st : state) (now oidx p inner : N) : state * list out :=
   | Some k =>
       let lens := map transport_len (staged P1) in
       (set_peer st p (set_staged P1 [] (sum lens)), map (fun l => OTrans (endpoint P) p (k_remote k) l) lens)
-  | None =>
-      (* SendHandshakeInitiation(false) *)
-      if now - last_sent P <? RekeyTimeout then (set_peer st p P1, []) else
-      let seq := nseq st + 1 in
-      let t1 := tadd_hs (tdelete (table st) (hs_local P)) oidx p in
-      ({| peers := peers (set_peer st p (with_initiation P1 now oidx seq)); table := t1; nseq := seq; loaded := loaded st |},
-       [OInit (endpoint P) p oidx (stamp_val now)])
+  | None => send_initiation st now oidx p P1
   end.
 
 (* --------------------------------------------------------------- hooks etc. *)
@@ -319,7 +324,11 @@ Inductive body :=
 | BTun (p inner : N)               (* TUN packet routed to peer p, inner length *)
 | BShift (p d : N)                 (* VerifShiftHandshakeTimes *)
 | BRestart                         (* device.Down(); device.Up() *)
-| BLoad (on : bool).               (* VerifForceUnderLoad(10 s) / VerifForceUnderLoad(0) *)
+| BLoad (on : bool)                (* VerifForceUnderLoad(10 s) / VerifForceUnderLoad(0) *)
+| BInitiate (p k : N).             (* k concurrent calls of SendHandshakeInitiation(false) for peer p (the timer /
+                                      keep-fresh / TUN callers): they are serialised by handshake.mutex, the first
+                                      sets lastSentHandshake and the others then fail the spacing test, so the
+                                      effect is that of one call whatever k >= 1 is *)
 
 Record event := { e_now : N; e_oidx : N; e_body : body }.
 
@@ -331,6 +340,8 @@ Definition step (st : state) (e : event) : state * list out :=
   | BRestart =>
       ({| peers := fun q => if p_conf (peers st q) then restart_peer (peers st q) (e_now e) else peers st q;
           table := []; nseq := nseq st; loaded := loaded st |}, [])
+  | BInitiate p k =>
+      if p_conf (peers st p) then send_initiation st (e_now e) (e_oidx e) p (peers st p) else (st, [])
   | BLoad on => ({| peers := peers st; table := table st; nseq := nseq st; loaded := on |}, [])
   end.
 
